@@ -91,3 +91,48 @@ func oracleC14TypedNil(res *Result) {
 		}
 	}
 }
+
+// legacyMulti: a multi-error of the pre-go1.20 style that also exposes its first element through
+// Cause() (as github.com/hashicorp/go-multierror-like types do) besides Unwrap() []error.
+type legacyMulti struct{ errs []error }
+
+func (m *legacyMulti) Error() string   { return fmt.Sprintf("%d errors, first: %v", len(m.errs), m.errs[0]) }
+func (m *legacyMulti) Cause() error    { return m.errs[0] }
+func (m *legacyMulti) Unwrap() []error { return m.errs }
+
+// oracleC14CauserMulti: a type with both Cause() error and Unwrap() []error: whatever the standard
+// library finds through any branch, the library finds too.
+func oracleC14CauserMulti(res *Result) {
+	c := &Case{ID: "causer-multi", Cmd: L(Sym("causer-multi"))}
+	target := goErr.New("needle")
+	pc := &pickyCode{3}
+	mk := func() error {
+		return &legacyMulti{[]error{goErr.New("first"), fmt.Errorf("second: %w", target), errors.Wrap(pc, "third")}}
+	}
+	shapes := []namedErr{
+		{"bare", mk()},
+		{"Wrap", errors.Wrap(mk(), "w")},
+		{"fmt %w", fmt.Errorf("f: %w", mk())},
+		{"in Join", errors.Join(goErr.New("x"), mk())},
+		{"nested", &legacyMulti{[]error{goErr.New("outer first"), mk()}}},
+		{"WithStack(WithHint)", errors.WithStack(errors.WithHint(mk(), "h"))},
+	}
+	for _, sh := range shapes {
+		res.OracleEvals["C14.causer_multi"]++
+		var lis, sis, las, sas bool
+		var lt, st *pickyCode
+		if ok, pv := catch(func() {
+			lis, sis = errors.Is(sh.e, target), goErr.Is(sh.e, target)
+			las, sas = errors.As(sh.e, &lt), goErr.As(sh.e, &st)
+		}); !ok {
+			res.fail(c, "C14.causer_multi", fmt.Sprintf("%s: panics: %v", sh.name, pv), "C14:causer-multi:panic")
+			continue
+		}
+		if sis && !lis {
+			res.fail(c, "C14.causer_multi", sh.name+": std errors.Is finds the reference in a later branch, Is does not", "C14:causer-multi:is")
+		}
+		if sas && (!las || lt != st) {
+			res.fail(c, "C14.causer_multi", fmt.Sprintf("%s: std errors.As finds %v in a later branch, As gives (%v, %v)", sh.name, st, las, lt), "C14:causer-multi:as")
+		}
+	}
+}
